@@ -6,6 +6,11 @@ Pipeline (DESIGN.md 2.2 / 7-C15):
   3. extract the regenerated model, build the C++ harness from /repo's current sources, run both on the same
      generated operations, compare exactly (validates the translator) and judge the implementation's outputs
      with an independent exact specification (python Fractions) -- that is also the failing-input search.
+  4. smt::lin (hand model coq/base/Lin.v): harness/h_lin.cpp drives the real class on operation sequences (corpus,
+     boundary grid, random programs), tools/lin_gen.py judges every intermediate state coefficient-wise with exact
+     Fractions (a failure = VIOLATION with the shrunk sequence), and the extracted model (oracle/lin_main.ml) must
+     print exactly the same states (a difference with a correct implementation = the model no longer describes lin.cpp).
+Regression inputs of the already repaired defects live in corpus/C15/ and are always run first.
 """
 import json
 import os
@@ -15,6 +20,7 @@ from fractions import Fraction
 import vlib
 import cxx2gallina
 import arith_tables
+import lin_gen
 
 LEVEL = "proof"
 CLASSES = {"rational": ("rat", [("num", "int"), ("den", "int")]),
@@ -152,6 +158,10 @@ def c_irat(p):
     return canon(p[0]) + "," + canon(p[1])
 
 
+def mag(x):
+    return max(abs(x.numerator), x.denominator)
+
+
 def lift(x):
     return x if isinstance(x, tuple) else (x, Fraction(0))
 
@@ -264,6 +274,10 @@ def spec(sig, args):
             ki = e_mul(a, b[1])
             if q is None or r2 is None or ki is None:
                 return None
+            # the range clause of the property ("no machine overflow"): -(k*i) / (r*r) multiplies three operands; beyond
+            # 2^62 in an intermediate product of the C++ the case is outside the property's domain
+            if not isinf(ki) and not isinf(r2) and mag(ki) * mag(r2) >= (1 << 62):
+                return None
             return c_irat((q, e_div(e_neg(ki), r2)))
     return "?nospec"
 
@@ -287,6 +301,13 @@ def pools(rng, big):
     return [str(i) for i in ints], rats, irats
 
 
+def corpus_lines(name):
+    path = os.path.join(vlib.VERIF, "corpus", "C15", name)
+    if not os.path.exists(path):
+        return []
+    return [l.strip() for l in open(path) if l.strip() and not l.startswith("#")]
+
+
 def gen_cases(ctx, sigs, consts):
     rng = ctx.rng
     big = (1 << 20) if not ctx.thorough else (1 << 24)
@@ -294,6 +315,14 @@ def gen_cases(ctx, sigs, consts):
     per = 260 if not ctx.thorough else 1500
     cases = []
     undefined = [0]
+    by_name = {s["name"]: s for s in sigs}
+    n_corpus = 0
+    for line in corpus_lines("arith.txt"):
+        w = line.split()
+        if w[0] in by_name and spec(by_name[w[0]], w[1:]) is not None:
+            cases.append((by_name[w[0]], w[1:]))
+            n_corpus += 1
+    ctx.cov["corpus_arith"] = n_corpus
     for s in sigs:
         tags = list(s["params"])
         if s["kind"] == "CXXMethodDecl":
@@ -358,6 +387,208 @@ def prebuild():
     vlib.cxx_build("h_arith", "h_arith.cpp", ["smt/arith/rational.cpp"], ["smt", "smt/arith"], extra_inc=[inc])
     vlib.ocaml_build("arith", ["gen/Gen_arith.vo"], arith_tables.extract_v(sigs, consts),
                      [("arith_io.ml", None), ("arith_dispatch.ml", arith_tables.ocaml_dispatch(sigs, consts)), ("arith_main.ml", None)])
+    build_h_lin()
+    build_lin_oracle()
+
+
+# ------------------------------------------------------------------------------------------------
+# smt::lin: harness, oracle, programs, judge, shrinking
+# ------------------------------------------------------------------------------------------------
+LIN_EXTRACT = ("From Coq Require Import Extraction ExtrOcamlBasic ZArith NArith.\nFrom ORatio Require Import gen.Gen_arith base.Lin.\n"
+               "Extraction Language OCaml.\nSet Extraction Optimize.\n"
+               "Extraction \"lin_model.ml\" lop_step lin_ctor lin_ctor_rat lin_ctor_var lin_to_string.\n")
+
+
+def build_h_lin():
+    return vlib.cxx_build("h_lin", "h_lin.cpp", ["smt/arith/rational.cpp", "smt/arith/lin.cpp"], ["smt", "smt/arith"])
+
+
+def build_lin_oracle():
+    return vlib.ocaml_build("lin", ["base/Lin.vo"], LIN_EXTRACT, [("lin_main.ml", None)])
+
+
+def lin_domain_prefix(prog):
+    """Cut a program before its first operation outside the property's domain (x/0, *= inf, infinite addends, or a
+    magnitude beyond the no-overflow range): the C++ asserts / overflows there."""
+    init, ops = prog
+    sp = lin_gen.Spec(init)
+    keep = []
+    for op, arg in ops:
+        if not sp.step(op, arg) or sp.too_big():
+            break
+        keep.append((op, arg))
+    return init, keep
+
+
+def lin_programs(ctx):
+    progs, origin = [], []
+    for line in corpus_lines("lin.txt"):
+        progs.append(lin_domain_prefix(lin_gen.parse_line(line)))
+        origin.append("corpus")
+    for p in lin_gen.grid_programs():
+        q = lin_domain_prefix(p)
+        if q[1]:
+            progs.append(q)
+            origin.append("grid")
+    n = 2500 if not ctx.thorough else 40000
+    for _ in range(n):
+        progs.append(lin_gen.rnd_program(ctx.rng, max_ops=6 if not ctx.thorough else 9, nvars=4 if ctx.rng.random() < 0.8 else 7))
+        origin.append("random")
+    return progs, origin
+
+
+def lin_fails(exe, prog):
+    """Run one program on the implementation; -> (failing step | None, reason, output line)."""
+    r, out = run_lines(exe, [lin_gen.prog_line(prog)], timeout=30)
+    line = out[0] if out else None
+    step, why, _ = lin_gen.judge_program(prog, line)
+    return step, why, line
+
+
+def lin_shrink(exe, prog, step, budget=60):
+    """Greedy shrinking of a failing program: cut after the failing step, drop earlier operations, drop map entries of
+    lin operands, as long as the implementation still fails on the last step."""
+    init, ops = prog
+    best = (init, list(ops[:step]))
+
+    def still_fails(cand):
+        nonlocal budget
+        if budget <= 0:
+            return False
+        budget -= 1
+        cand = lin_domain_prefix(cand)
+        st, _, _ = lin_fails(exe, cand)
+        return st is not None and st == len(cand[1])
+    if not still_fails(best):
+        return prog
+    changed = True
+    while changed and budget > 0:
+        changed = False
+        i = 0
+        while i < len(best[1]) - 1:
+            cand = (best[0], best[1][:i] + best[1][i + 1:])
+            if still_fails(cand):
+                best, changed = cand, True
+            else:
+                i += 1
+
+        def drop_entries(txt):
+            parts = txt.split(";")
+            return [";".join(parts[:j] + parts[j + 1:]) for j in range(1, len(parts))]
+        if ";" in best[0] and not best[0].startswith("ctor"):
+            for t in drop_entries(best[0]):
+                if still_fails((t, best[1])):
+                    best, changed = (t, best[1]), True
+                    break
+        for i, (op, arg) in enumerate(best[1]):
+            if op in lin_gen.LIN_OPS and ";" in arg:
+                for t in drop_entries(arg):
+                    cand = (best[0], best[1][:i] + [(op, t)] + best[1][i + 1:])
+                    if still_fails(cand):
+                        best, changed = cand, True
+                        break
+    return best
+
+
+def lin_impl_stage(ctx, spec_hits):
+    """Implementation of smt::lin against the exact coefficient-wise specification. Returns (exe, progs, impl lines)."""
+    cov = ctx.cov
+    exe, log = build_h_lin()
+    if not exe:
+        ctx.violation("build:h_lin", {"kind": "harness-build-failed", "log": log[-3000:]}, no_input=True)
+        return None, [], []
+    progs, origin = lin_programs(ctx)
+    lines = [lin_gen.prog_line(p) for p in progs]
+    r, impl = run_lines(exe, lines)
+    if len(impl) < len(lines):
+        k = len(impl)
+        bad = progs[min(k, len(progs) - 1)]
+        sig = "lin:crash:" + (bad[1][-1][0] if bad[1] else "init")
+        spec_hits.append(sig)
+        ctx.violation(sig, {"kind": "implementation-aborted", "input": lines[min(k, len(lines) - 1)], "rc": r.rc, "stderr": r.err[-500:],
+                            "replay_cmd": "echo '%s' | %s" % (lines[min(k, len(lines) - 1)], exe)})
+    states = 0
+    ops_dist, org_dist, shapes = {}, {}, {"shared": 0, "cancelling": 0, "disjoint": 0, "zero_scalar": 0, "negative_scalar": 0, "inf_divisor": 0}
+    nontrivial = set()
+    for prog, org, got in zip(progs, origin, impl):
+        step, why, n = lin_gen.judge_program(prog, got)
+        states += n
+        org_dist[org] = org_dist.get(org, 0) + 1
+        sp = lin_gen.Spec(prog[0])
+        for op, arg in prog[1]:
+            ops_dist[op] = ops_dist.get(op, 0) + 1
+            if op in lin_gen.LIN_OPS:
+                _, ents = lin_gen.p_lin(arg)
+                sh = [v for v, c in ents if v in sp.coefs]
+                if sh:
+                    shapes["shared"] += 1
+                    sg = 1 if op.startswith("add") else -1
+                    if any(sp.coefs[v] + sg * c == 0 for v, c in ents if v in sp.coefs):
+                        shapes["cancelling"] += 1
+                elif ents:
+                    shapes["disjoint"] += 1
+            elif arg is not None:
+                if arg.startswith("0/"):
+                    shapes["zero_scalar"] += 1
+                elif arg.endswith("/0"):
+                    shapes["inf_divisor"] += 1
+                elif arg.startswith("-"):
+                    shapes["negative_scalar"] += 1
+            sp.step(op, arg)
+        if len(prog[1]) >= 2 or any(op in lin_gen.LIN_OPS for op, _ in prog[1]):
+            nontrivial.add(lin_gen.prog_line(prog))
+        if step is not None:
+            opname = prog[1][step - 1][0] if step >= 1 else "init"
+            sig = "lin:to_string" if (why or "").startswith("to_string") else "lin:" + opname
+            if sig not in spec_hits:
+                spec_hits.append(sig)
+                small = lin_shrink(exe, prog, step) if step >= 1 else prog
+                st2, why2, out2 = lin_fails(exe, small)
+                if st2 is None:
+                    small, st2, why2, out2 = prog, step, why, got
+                sp2 = lin_gen.Spec(small[0])
+                for op, arg in small[1][:st2]:
+                    sp2.step(op, arg)
+                ctx.violation(sig, {"kind": "implementation-differs-from-exact-arithmetic", "class": "smt::lin", "operation": opname,
+                                    "input": lin_gen.prog_line(small), "failing_step": st2, "reason": why2,
+                                    "expected_state": sp2.txt(), "implementation": out2, "unshrunk_input": lin_gen.prog_line(prog),
+                                    "replay_cmd": "echo '%s' | %s" % (lin_gen.prog_line(small), exe)})
+    cov["lin"] = {"programs": len(progs), "states_judged_by_exact_spec": states, "origin": org_dist, "operations": ops_dist,
+                  "operand_shapes": shapes, "distinct_nontrivial_programs": len(nontrivial),
+                  "rule": "corpus of repaired defects + every operator form x boundary operand grid + random sequences of 1..6 (9 thorough) "
+                          "operations on one object (compound-only / binary-only / mixed), operands aimed at the current "
+                          "object's variables (same, opposite, absent), scalars incl. 0, negatives, +-inf divisors; "
+                          "non-trivial = at least two operations or a lin operand"}
+    for prog, got in list(zip(progs, impl))[:: max(1, len(progs) // 3)][:3]:
+        ctx.sample({"lin_program": lin_gen.prog_line(prog), "implementation": got})
+    return exe, progs, impl
+
+
+def lin_model_stage(ctx, progs, impl, spec_hits):
+    """Extracted model of Lin.v against the implementation: exact equality of every printed state."""
+    cov = ctx.cov
+    oexe, olog = build_lin_oracle()
+    if not oexe:
+        ctx.violation("build:oracle_lin", {"kind": "oracle-build-failed", "log": olog[-3000:]}, no_input=True)
+        return
+    lines = [lin_gen.prog_line(p) for p in progs]
+    r, model = run_lines(oexe, lines)
+    mism = 0
+    for prog, gi, gm in zip(progs, impl, model):
+        if gi != gm:
+            mism += 1
+            if mism == 1 and not any(h.startswith("lin:") for h in spec_hits):
+                a, b = gi.split(" | "), gm.split(" | ")
+                k = next((i for i in range(min(len(a), len(b))) if a[i] != b[i]), min(len(a), len(b)))
+                opname = prog[1][k - 1][0] if 1 <= k <= len(prog[1]) else "init"
+                ctx.violation("corr:lin:" + opname, {"kind": "model-differs-from-implementation",
+                                                     "correspondence": "corr:lin (coq/base/Lin.v extracted vs smt::lin)",
+                                                     "input": lin_gen.prog_line(prog), "step": k, "model": gm, "implementation": gi},
+                              no_input=True)
+    if len(model) < len(lines):
+        ctx.violation("corr:lin:oracle-aborted", {"kind": "oracle-aborted", "stderr": r.err[-500:]}, no_input=True)
+    cov["lin"]["programs_validated_against_model"] = len(model) - mism
+    cov["lin"]["model_vs_impl_mismatches"] = mism
 
 
 # ------------------------------------------------------------------------------------------------
@@ -432,11 +663,18 @@ def run(ctx):
     for (s, a), got in list(zip(cases, impl))[:: max(1, len(cases) // 6)]:
         ctx.sample({"op": " ".join([s["name"]] + a), "implementation": got})
 
+    # 3c. smt::lin against the exact coefficient-wise specification (before the proofs: it is also the failing-input search)
+    lin_exe, lin_progs, lin_impl = lin_impl_stage(ctx, spec_hits)
+    cov["evaluations"] += cov.get("lin", {}).get("states_judged_by_exact_spec", 0)
+    cov["distinct_nontrivial"] += cov.get("lin", {}).get("distinct_nontrivial_programs", 0)
+
     # 2. proofs ---------------------------------------------------------------------------------
     def search(res):
         return bool(spec_hits)
     if translated:
-        vlib.proof_stage(ctx, search=search)
+        res = vlib.proof_stage(ctx, search=search)
+        if ctx.thorough and res["ok"]:
+            vlib.coqchk_stage(ctx)
     else:
         if not spec_hits:
             ctx.violation("translator:arith", {"kind": "translator-failed", "error": cov["translator"]["error"],
@@ -461,8 +699,61 @@ def run(ctx):
                                                           "input": " ".join([s["name"]] + a), "model": gm, "implementation": gi}, no_input=True)
     cov["traces_validated_against_impl"] = len(model) - mism
     cov["model_vs_impl_mismatches"] = mism
+    # 3d. extracted Lin model vs smt::lin -------------------------------------------------------------
+    if lin_exe:
+        lin_model_stage(ctx, lin_progs, lin_impl, spec_hits)
+        cov["traces_validated_against_impl"] += cov["lin"].get("programs_validated_against_model", 0)
     cov["trusted_base"] += ["tools/cxx2gallina.py (clang 14 JSON AST -> Gallina) and tools/arith_tables.py",
-                            "python Fractions as the independent exact specification used to judge the implementation's outputs",
+                            "python Fractions as the independent exact specification used to judge the implementation's outputs "
+                            "(tools/checks/c15.py spec() for rational / inf_rational, tools/lin_gen.py Spec for lin)",
+                            "coq/base/Lin.v is a hand-written model of smt/arith/lin.cpp (std::map as a sorted association list); its tie to "
+                            "the source is the differential harness/h_lin.cpp vs oracle/lin_main.ml run on every check (exact equality "
+                            "of every intermediate state, zero entries included)",
                             "C++ UB on integer division by zero is modelled by Coq's total Z.quot (x / 0 = 0); the affected operations "
                             "(rational(0,0), x / 0) are 'undefined' in the theorems and skipped in the comparison"]
-    ctx.assumptions += ["operands stay below 2^20 (2^24 thorough) so that no machine overflow occurs (the property's own range clause)"]
+    ctx.assumptions += ["operands stay below 2^20 (2^24 thorough) so that no machine overflow occurs (the property's own range clause)",
+                        "lin programs: numerators / denominators of every state below 2^30 and generated scalars below 2^7 (programs are cut there)"]
+
+
+def replay(path):
+    """Re-run only the input stored in a replay file on the current implementation; exit code 1 = still violated."""
+    rp = json.load(open(path))
+    sig, inp = rp.get("signature", ""), rp.get("input")
+    if not inp:
+        print("replay: no concrete input in %s (%s): run the full check" % (path, rp.get("theorem") or sig))
+        return 2
+    if sig.startswith("lin:") or sig.startswith("corr:lin"):
+        exe, log = build_h_lin()
+        if not exe:
+            print(log[-2000:])
+            return 2
+        prog = lin_domain_prefix(lin_gen.parse_line(inp))
+        step, why, out = lin_fails(exe, prog)
+        print("input :", lin_gen.prog_line(prog))
+        print("output:", out)
+        if step is not None:
+            print("VIOLATION property=C15 replay=%s  (step %d: %s)" % (path, step, why))
+            return 1
+        print("replay: the implementation now satisfies the exact specification on this input")
+        return 0
+    text, rep, _ = regenerate()
+    sigs, consts = rep["sigs"], rep["consts"]
+    inc = os.path.join(vlib.BUILD, "c15_inc")
+    os.makedirs(inc, exist_ok=True)
+    vlib.write_if_changed(os.path.join(inc, "arith_dispatch.inc"), arith_tables.cxx_dispatch(sigs, consts))
+    exe, log = vlib.cxx_build("h_arith", "h_arith.cpp", ["smt/arith/rational.cpp"], ["smt", "smt/arith"], extra_inc=[inc])
+    if not exe:
+        print(log[-2000:])
+        return 2
+    w = inp.split()
+    by_name = {s["name"]: s for s in sigs}
+    r, out = run_lines(exe, [inp], timeout=30)
+    got = out[0] if out else None
+    exp = spec(by_name[w[0]], w[1:]) if w[0] in by_name else "?nospec"
+    print("input :", inp)
+    print("output:", got, " expected:", exp)
+    if got != exp:
+        print("VIOLATION property=C15 replay=%s" % path)
+        return 1
+    print("replay: the implementation now satisfies the exact specification on this input")
+    return 0
